@@ -63,6 +63,51 @@ def _run_one(task):
         return {"crash": traceback.format_exc(), "module": modname, "index": idx}
 
 
+def _child(task, outfile):
+    r = _run_one(task)
+    with open(outfile, "w") as f:
+        json.dump(r, f, default=str)
+
+
+def run_tasks(tasks, names, jobs, work):
+    """One OS process per variant (a solver that hangs or dies cannot take the
+    run with it); hard wall-clock limit = the variant's budget + 90 s."""
+    pending = list(enumerate(tasks))
+    running = {}
+    results = []
+    while pending or running:
+        while pending and len(running) < jobs:
+            i, t = pending.pop(0)
+            out = os.path.join(work, "res-%d-%d.json" % (os.getpid(), i))
+            p = mp.Process(target=_child, args=(t, out))
+            p.start()
+            running[i] = (p, time.time(), t, out)
+        time.sleep(0.05)
+        for i in list(running):
+            p, t0, t, out = running[i]
+            if p.is_alive() and time.time() - t0 < t[3] + 90:
+                continue
+            if p.is_alive():
+                p.kill()
+                p.join()
+                results.append({"variant": names[i], "qualname": None, "props": [], "paths": 0, "aborted": {},
+                                "unsupported": "hard wall-clock limit: solver did not return", "obligations": [],
+                                "bounded": None, "inlined": [], "contracts_used": [], "notes": [], "module": t[0],
+                                "seconds": round(time.time() - t0, 1)})
+            else:
+                p.join()
+                if os.path.exists(out):
+                    results.append(json.load(open(out)))
+                    os.unlink(out)
+                else:
+                    results.append({"variant": names[i], "qualname": None, "props": [], "paths": 0, "aborted": {},
+                                    "unsupported": "worker process died (exit code %s)" % p.exitcode,
+                                    "obligations": [], "bounded": None, "inlined": [], "contracts_used": [],
+                                    "notes": [], "module": t[0], "seconds": round(time.time() - t0, 1)})
+            del running[i]
+    return results
+
+
 def collect_tasks(prop, tier):
     repo, W = _world()
     tasks = []
@@ -105,11 +150,7 @@ def main(argv=None):
             keep = [i for i, n in enumerate(names) if a.only in n]
             tasks = [tasks[i] for i in keep]
             names = [names[i] for i in keep]
-        results = []
-        if tasks:
-            with mp.Pool(min(a.jobs, len(tasks))) as pool:
-                for r in pool.imap_unordered(_run_one, tasks, chunksize=1):
-                    results.append(r)
+        results = run_tasks(tasks, names, a.jobs, work)
         extras = report.run_extras(a.prop, a.tier, seed, PROPS[a.prop])
         os.unlink(pf)
     except BaseException:
